@@ -62,6 +62,36 @@ type Term struct {
 	// constant info (for folding)
 	isConst bool
 	cval    *big.Int // for BV consts (unsigned value) ; for Bool: 0/1
+	// tree: set when the term is an if-then-else tree whose leaves are all BV constants (e.g. a length computed by an
+	// unrolled loop). Operations whose cost explodes on symbolic operands (division, shifts) are pushed into the leaves.
+	tree *CTree
+}
+
+type CTree struct {
+	Cond Term
+	T, E *CTree
+	Leaf Term // when T == nil
+	N    int  // number of leaves
+}
+
+const maxTreeLeaves = 40
+
+func treeOf(t Term) *CTree {
+	if t.tree != nil {
+		return t.tree
+	}
+	if t.isConst && t.Sort.BVWidth() > 0 {
+		return &CTree{Leaf: t, N: 1}
+	}
+	return nil
+}
+
+// mapTree applies f to every leaf and rebuilds the ite term.
+func mapTree(tr *CTree, f func(Term) Term) Term {
+	if tr.T == nil {
+		return f(tr.Leaf)
+	}
+	return Ite(tr.Cond, mapTree(tr.T, f), mapTree(tr.E, f))
 }
 
 func (t Term) String() string { return t.S }
@@ -218,7 +248,41 @@ func Ite(c, a, b Term) Term {
 			return Not(c)
 		}
 	}
-	return App(a.Sort, "ite", c, a, b)
+	if a.Sort == "Slice" && strings.HasPrefix(a.S, "(mk-slice ") && strings.HasPrefix(b.S, "(mk-slice ") {
+		// component-wise: keeps lengths that agree on both sides syntactically constant
+		pa, pb := splitArgs(a.S), splitArgs(b.S)
+		if len(pa) == 5 && len(pb) == 5 {
+			srt := []Sort{SRef, SBV(64), SBV(64), SBV(64)}
+			var comps []Term
+			for i := 0; i < 4; i++ {
+				comps = append(comps, Ite(c, atomTerm(pa[i+1], srt[i]), atomTerm(pb[i+1], srt[i])))
+			}
+			return App(a.Sort, "mk-slice", comps...)
+		}
+	}
+	r := App(a.Sort, "ite", c, a, b)
+	if a.Sort.BVWidth() > 0 {
+		ta, tb := treeOf(a), treeOf(b)
+		if ta != nil && tb != nil && ta.N+tb.N <= maxTreeLeaves {
+			r.tree = &CTree{Cond: c, T: ta, E: tb, N: ta.N + tb.N}
+		}
+	}
+	return r
+}
+
+// atomTerm rebuilds a Term from its text (recovering constness of literals).
+func atomTerm(s string, srt Sort) Term {
+	if strings.HasPrefix(s, "#x") {
+		if v, ok := new(big.Int).SetString(s[2:], 16); ok {
+			return BVConst(v, 4*(len(s)-2))
+		}
+	}
+	if strings.HasPrefix(s, "#b") {
+		if v, ok := new(big.Int).SetString(s[2:], 2); ok {
+			return BVConst(v, len(s)-2)
+		}
+	}
+	return Term{S: s, Sort: srt}
 }
 
 func Eq(a, b Term) Term {
@@ -231,6 +295,12 @@ func Eq(a, b Term) Term {
 	if a.Sort != b.Sort {
 		panic(fmt.Sprintf("Eq sort mismatch: %s:%s vs %s:%s", a.S, a.Sort, b.S, b.Sort))
 	}
+	if a.tree != nil && b.isConst {
+		return mapTree(a.tree, func(l Term) Term { return Eq(l, b) })
+	}
+	if b.tree != nil && a.isConst {
+		return mapTree(b.tree, func(l Term) Term { return Eq(a, l) })
+	}
 	return App(SBool, "=", a, b)
 }
 
@@ -238,6 +308,36 @@ func bvBin(op string, a, b Term) Term {
 	n := a.Sort.BVWidth()
 	if n == 0 || a.Sort != b.Sort {
 		panic(fmt.Sprintf("bvBin %s sort mismatch: %s:%s vs %s:%s", op, a.S, a.Sort, b.S, b.Sort))
+	}
+	if a.tree != nil && (b.isConst || b.tree != nil) || b.tree != nil && a.isConst {
+		// constant trees combine into constant trees
+		if a.tree != nil && b.tree != nil && a.tree.N*b.tree.N > maxTreeLeaves {
+			// too many combinations: fall through to the plain term
+		} else if a.tree != nil {
+			return mapTree(a.tree, func(l Term) Term { return bvBin(op, l, b) })
+		} else {
+			return mapTree(b.tree, func(l Term) Term { return bvBin(op, a, l) })
+		}
+	}
+	switch op {
+	case "bvudiv", "bvurem", "bvsdiv", "bvsrem", "bvshl", "bvlshr", "bvashr", "bvmul":
+		// expensive operators with one tree operand: push the operator into the (constant) leaves
+		if b.tree != nil && !a.isConst {
+			return mapTree(b.tree, func(l Term) Term { return bvBin(op, a, l) })
+		}
+		if a.tree != nil && !b.isConst && op == "bvmul" {
+			return mapTree(a.tree, func(l Term) Term { return bvBin(op, l, b) })
+		}
+	}
+	if b.isConst && b.cval.Sign() > 0 && new(big.Int).And(b.cval, new(big.Int).Sub(b.cval, big.NewInt(1))).Sign() == 0 && !a.isConst {
+		// unsigned division / remainder by a power of two
+		k := b.cval.BitLen() - 1
+		switch op {
+		case "bvudiv":
+			return bvBin("bvlshr", a, BVInt(int64(k), n))
+		case "bvurem":
+			return bvBin("bvand", a, BVConst(new(big.Int).Sub(b.cval, big.NewInt(1)), n))
+		}
 	}
 	if a.isConst && b.isConst {
 		x, y := a.cval, b.cval
@@ -329,6 +429,12 @@ func bvCmp(op string, a, b Term) Term {
 			return BoolConst(c >= 0)
 		}
 	}
+	if a.tree != nil && b.isConst {
+		return mapTree(a.tree, func(l Term) Term { return bvCmp(op, l, b) })
+	}
+	if b.tree != nil && a.isConst {
+		return mapTree(b.tree, func(l Term) Term { return bvCmp(op, a, l) })
+	}
 	if a.S == b.S {
 		switch op[3:] {
 		case "lt", "gt":
@@ -349,6 +455,9 @@ func Extract(hi, lo int, a Term) Term {
 	if lo == 0 && hi == a.Sort.BVWidth()-1 {
 		return a
 	}
+	if a.tree != nil {
+		return mapTree(a.tree, func(l Term) Term { return Extract(hi, lo, l) })
+	}
 	return Term{S: fmt.Sprintf("((_ extract %d %d) %s)", hi, lo, a.S), Sort: SBV(n)}
 }
 
@@ -360,6 +469,9 @@ func ZeroExt(a Term, to int) Term {
 	if a.isConst {
 		return BVConst(a.cval, to)
 	}
+	if a.tree != nil {
+		return mapTree(a.tree, func(l Term) Term { return ZeroExt(l, to) })
+	}
 	return Term{S: fmt.Sprintf("((_ zero_extend %d) %s)", to-n, a.S), Sort: SBV(to)}
 }
 
@@ -370,6 +482,9 @@ func SignExt(a Term, to int) Term {
 	}
 	if a.isConst {
 		return BVConst(toSigned(a.cval, n), to)
+	}
+	if a.tree != nil {
+		return mapTree(a.tree, func(l Term) Term { return SignExt(l, to) })
 	}
 	return Term{S: fmt.Sprintf("((_ sign_extend %d) %s)", to-n, a.S), Sort: SBV(to)}
 }
